@@ -50,31 +50,60 @@ def numbering(n, r):
     return r.sample(range(1, 40 * n + 3000), n)
 
 
+# plausible mode: neutral elements able to carry a given number of skeleton bonds (normal valence >= degree)
+BY_DEGREE = {0: SKELETON + LEAVES, 1: SKELETON + LEAVES, 2: ('C', 'C', 'C', 'N', 'O', 'S', 'P', 'B', 'Si', 'Se'), 3: ('C', 'C', 'N', 'P', 'B', 'Si'),
+             4: ('C', 'C', 'Si')}
+NORMAL = {'C': 4, 'N': 3, 'O': 2, 'S': 2, 'P': 3, 'B': 3, 'Si': 4, 'Se': 2, 'As': 0, 'F': 1, 'Cl': 1, 'Br': 1, 'I': 1, 'H': 1}
+# plausible charged / radical states: (element, charge, radical) -> change of the normal valence
+ONIUM = {('N', 1, False): 1, ('O', 1, False): 1, ('S', 1, False): 1, ('P', 1, False): 1, ('B', -1, False): 1, ('C', -1, False): -1, ('C', 1, False): -1,
+         ('N', -1, False): -1, ('O', -1, False): -1, ('S', -1, False): -1, ('C', 0, True): -1, ('N', 0, True): -1, ('O', 0, True): -1}
+
+
 def decorate(g, r):
+    """seeded decoration.  About half of the calls are *plausible* (element chosen for its degree, bond orders raised only while both
+    ends have free valence, onium / -ate / carbanion / radical states with the matching valence), the rest unconstrained (valence errors)."""
     nodes = list(g.nodes)
     deg = dict(g.degree())
     pos = {v: i for i, v in enumerate(nodes)}
+    plausible = r.random() < .55
     atoms = []
+    free = {}
     for v in nodes:
-        sym = r.choice(LEAVES) if deg[v] <= 1 and r.random() < .6 else r.choice(SKELETON)
         iso, ch, rad = None, 0, False
-        x = r.random()
-        if x < .12:
-            ch = r.choice((-1, 1))
-        elif x < .15:
-            ch = r.choice((-2, 2, -1, 1))
-        elif x < .17:
-            ch = r.choice((-4, -3, 3, 4))
-        if r.random() < .06:
-            rad = True
-        if r.random() < .08 and sym in ISOTOPES:
+        if plausible:
+            sym = r.choice(BY_DEGREE[min(deg[v], 4)])
+            cap = NORMAL[sym]
+            if r.random() < .2:
+                st = r.choice(sorted(k for k in ONIUM if k[0] == sym) or [None])
+                if st is not None and cap + ONIUM[st] >= deg[v]:
+                    _, ch, rad = st
+                    cap += ONIUM[st]
+            if cap < deg[v]:
+                sym, cap = 'C', 4
+            free[v] = cap - deg[v]
+        else:
+            sym = r.choice(LEAVES) if deg[v] <= 1 and r.random() < .6 else r.choice(SKELETON)
+            x = r.random()
+            if x < .12:
+                ch = r.choice((-1, 1))
+            elif x < .15:
+                ch = r.choice((-2, 2, -1, 1))
+            elif x < .17:
+                ch = r.choice((-4, -3, 3, 4))
+            if r.random() < .06:
+                rad = True
+        if r.random() < .1 and sym in ISOTOPES:
             iso = r.choice(ISOTOPES[sym])
         atoms.append((sym, iso, ch, rad))
     bonds = []
     for a, b in g.edges:
         x = r.random()
         o = 3 if x < .06 else 2 if x < .3 else 1
-        if 'H' in (atoms[pos[a]][0], atoms[pos[b]][0]) and r.random() < .9:
+        if plausible:
+            o = min(o, 1 + free[a], 1 + free[b])
+            free[a] -= o - 1
+            free[b] -= o - 1
+        elif 'H' in (atoms[pos[a]][0], atoms[pos[b]][0]) and r.random() < .9:
             o = 1
         bonds.append((pos[a], pos[b], o))
     return atoms, bonds
